@@ -104,18 +104,17 @@ Print Assumptions peel_all_asis_refuted.
    from the history alone: the client of the most recent successful "add" of k (a failed store write registers
    nothing, "remove" is answered server_error and removes nothing).  In the state reached by ANY history of keylist
    updates (any clients, any number of entries, any single failing store write, any response-send outcome) and
-   forwards, a forward for key k is relayed to the registrant of k, or — when the outbound transport fails — held
+   forwards, pickups and restarts of the mediator (the stores persist), a forward for key k is relayed to the registrant of k, or — when the outbound transport fails — held
    for pickup by that same agent; when nobody registered k nothing is handed to anybody. *)
 Theorem forward_goes_to_registrant : forall hist to m ok,
-  rstep (fst (rrun [] hist)) (RForward to m ok false) =
-    (fst (rrun [] hist),
+  snd (rstep (fst (rrun ms0 hist)) (RForward to m ok false false)) =
      match registrant hist to with
      | Some d => if ok then ORelay d m else OHeld d m
      | None => ODrop
-     end).
+     end.
 Proof.
   intros hist to m ok. unfold rstep, rrun. apply (forward_step data_key). intros k.
-  apply (rrun_get data_key data_key_eqb k hist []).
+  apply (rrun_get data_key data_key_eqb k hist ms0).
 Qed.
 Print Assumptions forward_goes_to_registrant.
 
@@ -148,7 +147,7 @@ Theorem route_exact_normalising_key_function_refuted :
   exists ops, route_exact_g data_key_xonly ops = false /\ route_exact_b ops = true.
 Proof.
   exists [RUpdate 1 [(AAdd, RDidKey 237 1 0)] None true; RUpdate 2 [(AAdd, RDidKey 236 1 0)] None true;
-          RForward (RDidKey 237 1 0) 7 true false].
+          RForward (RDidKey 237 1 0) 7 true false false].
   split; vm_compute; reflexivity.
 Qed.
 Print Assumptions route_exact_normalising_key_function_refuted.
@@ -156,19 +155,22 @@ Print Assumptions route_exact_normalising_key_function_refuted.
 (* no operation hands a message to two agents *)
 Theorem at_most_one_delivery : forall s o, (length (deliveries (snd (rstep s o))) <= 1)%nat.
 Proof.
-  intros s o. unfold rstep. destruct o as [client ups f ok|to m ok fget]; cbn [rstep_g].
-  - destruct (apply_updates_g data_key s client ups f 0). cbn. auto.
-  - destruct fget; [cbn; auto|]. destruct (route_get s (data_key to)); [destruct ok|]; cbn; auto.
+  intros s o. unfold rstep. destruct o as [client ups f ok|to m ok fget fres|c n|]; cbn [rstep_g].
+  - destruct (apply_updates_g data_key (routes s) client ups f 0). cbn. auto.
+  - destruct fget; [cbn; auto|]. destruct (route_get (routes s) (data_key to)); [|cbn; auto].
+    destruct fres; [cbn; auto|]. destruct ok; cbn; auto.
+  - destruct (inbox_opt (inboxes s) c); cbn; auto.
+  - cbn. auto.
 Qed.
 Print Assumptions at_most_one_delivery.
 
 (* a keylist update changes the route of the keys it successfully adds and of no other key *)
 Theorem update_touches_only_its_keys : forall s client ups f ok k,
   (forall a, ~ In (a, k) ups) ->
-  route_get (fst (rstep s (RUpdate client ups f ok))) (data_key k) = route_get s (data_key k).
+  route_get (routes (fst (rstep s (RUpdate client ups f ok)))) (data_key k) = route_get (routes s) (data_key k).
 Proof.
   intros s client ups f ok k Hno. unfold rstep. rewrite (rstep_get data_key data_key_eqb). cbn [registrant_from].
-  generalize 0%nat. generalize (route_get s (data_key k)). induction ups as [|[a k'] ups IH]; intros cur i; [reflexivity|].
+  generalize 0%nat. generalize (route_get (routes s) (data_key k)). induction ups as [|[a k'] ups IH]; intros cur i; [reflexivity|].
   assert (Hk : rkey_eqb k k' = false).
   { destruct (rkey_eqb k k') eqn:E; [|reflexivity]. apply rkey_eqb_eq in E. subst. exfalso. apply (Hno a). left; reflexivity. }
   assert (Hno' : forall a0, ~ In (a0, k) ups) by (intros a0 Hi; apply (Hno a0); right; exact Hi).
@@ -179,14 +181,54 @@ Print Assumptions update_touches_only_its_keys.
 (* OBSERVATION (not claimed as a violation, DESIGN 7 C14): a later registration of an already registered key by
    another client takes the route over; "remove" does not remove. *)
 Theorem takeover_and_remove_observed :
-  snd (rrun [] [RUpdate 1 [(AAdd, RB58 5)] None true; RForward (RB58 5) 7 true false;
-                RUpdate 2 [(AAdd, RB58 5)] None true; RForward (RB58 5) 8 true false;
-                RUpdate 2 [(ARemove, RB58 5)] None true; RForward (RB58 5) 9 false false])
+  snd (rrun ms0 [RUpdate 1 [(AAdd, RB58 5)] None true; RForward (RB58 5) 7 true false false;
+                RUpdate 2 [(AAdd, RB58 5)] None true; RForward (RB58 5) 8 true false false;
+                RUpdate 2 [(ARemove, RB58 5)] None true; RForward (RB58 5) 9 false false false])
   = [OResp 1 [(RB58 5, AAdd, RSuccess)] true; ORelay 1 7;
      OResp 2 [(RB58 5, AAdd, RSuccess)] true; ORelay 2 8;
      OResp 2 [(RB58 5, ARemove, RServerError)] true; OHeld 2 9].
 Proof. vm_compute. reflexivity. Qed.
 Print Assumptions takeover_and_remove_observed.
+
+(* OBSERVATION: when the store read fails or the registrant's DID does not resolve (VDR error), the message is
+   dropped — neither relayed nor held (mediator/service_test.go pins the "get destination" error).  The full
+   statements above are therefore about forwards whose store read and DID resolution succeed. *)
+Theorem fault_drops_observed : forall s to m ok,
+  snd (rstep s (RForward to m ok true false)) = ODrop /\ snd (rstep s (RForward to m ok false true)) = ODrop /\
+  fst (rstep s (RForward to m ok false true)) = s.
+Proof.
+  intros s to m ok. unfold rstep. cbn [rstep_g]. repeat split; destruct (route_get (routes s) (data_key to)); reflexivity.
+Qed.
+Print Assumptions fault_drops_observed.
+
+(* ------------------------------------------------------------------------------------------------------------
+   FULL STATEMENT, part 4 (held for pickup by that agent).  For every history (keylist updates, forwards with any
+   faults, pickups of any batch size by any clients, restarts) and every client d: what d obtained from the pickup
+   service, followed by what is still held for d, is exactly — as lists: order, multiplicity — what the mediator
+   held for d; and by route_exact it held a message for d only when d was the registrant of the addressed key.  So
+   a held message comes out in a batch to its registrant and to nobody else. *)
+Theorem held_messages_go_to_their_registrant : forall ops d,
+  let '(s, outs) := rrun ms0 ops in
+  picked_up d outs ++ inbox s d = held_for d outs.
+Proof. intros ops d. exact (run_conserve data_key d ops ms0). Qed.
+Print Assumptions held_messages_go_to_their_registrant.
+
+(* a pickup hands the requesting client a prefix of its own inbox and touches nobody else's *)
+Theorem pickup_touches_own_inbox_only : forall s c n,
+  (snd (rstep s (RPickup c n)) = ONoInbox c \/ snd (rstep s (RPickup c n)) = OBatch c (firstn n (inbox s c))) /\
+  forall d, d <> c -> inbox (fst (rstep s (RPickup c n))) d = inbox s d.
+Proof.
+  intros s c n. unfold rstep. cbn [rstep_g]. unfold inbox. destruct (inbox_opt (inboxes s) c) as [l|] eqn:E; cbn [snd fst].
+  - split; [right; reflexivity|]. intros d Hd. cbn [inboxes inbox_opt].
+    destruct (d =? c) eqn:E2; [apply N.eqb_eq in E2; contradiction|reflexivity].
+  - split; [left; reflexivity|]. intros; reflexivity.
+Qed.
+Print Assumptions pickup_touches_own_inbox_only.
+
+(* a restart of the mediator (new service instance, same stores) changes neither routes nor inboxes *)
+Theorem restart_keeps_routes_and_inboxes : forall s, rstep s RRestart = (s, ORestarted).
+Proof. reflexivity. Qed.
+Print Assumptions restart_keeps_routes_and_inboxes.
 
 (* ------------------------------------------------------------------------------------------------------------
    END TO END: one mediator.  The recipient (client d) registered the key string the profile makes the dispatcher
@@ -201,7 +243,7 @@ Theorem routed_end_to_end : forall c pf spar payload sender rcpts r0 hopk rn out
   registrant hist (tref_id (to_ref (style_of c) pf r0)) = Some d ->
   exists to inner k,
     peel ls med outer = Ok (PFwd (is_v2 pf) to inner, None, h_key hopk) /\
-    snd (rstep (fst (rrun [] hist)) (RForward (tref_id to) m true false)) = ORelay d m /\
+    snd (rstep (fst (rrun ms0 hist)) (RForward (tref_id to) m true false false)) = ORelay d m /\
     In k rcpts /\ In k rcp /\ peel ls rcp inner = Ok (PMsg payload, expect_from (packer_of c) sender, k).
 Proof.
   intros c pf spar payload sender rcpts r0 hopk rn outer ls hist d med rcp m Hw Hhd Hmed Hrcp Hreg.
@@ -223,7 +265,7 @@ Proof.
   destruct (Hlay l med Hw (or_introl eq_refl)) as [Hopen _]. rewrite Hkey in Hopen. specialize (Hopen Hmed).
   rewrite Hopen in Epl. inversion Epl; subst. rewrite Hpl. cbn [embed].
   split; [rewrite Hkey; reflexivity|]. split; [|split; [exact Hk1|split; [exact Hk2|exact Hk3]]].
-  rewrite forward_goes_to_registrant. cbn [snd]. rewrite Hreg. reflexivity.
+  rewrite forward_goes_to_registrant. rewrite Hreg. reflexivity.
 Qed.
 Print Assumptions routed_end_to_end.
 
@@ -280,15 +322,20 @@ Proof. vm_compute. eexists. split; reflexivity. Qed.
 
 Example route_exact_nonvacuous :
   (* related keys: an Ed25519 and an X25519 did:key over the same bytes, their base58 notation, the points (x, y)
-     and (x, -y), a key with a fragment appended: each routed to its own registrant *)
+     and (x, -y), a key with a fragment appended: each routed to its own registrant; held messages picked up by the
+     registrant only, across a restart *)
   let ed := RDidKey 237 1 0 in let x := RDidKey 236 1 0 in let b := RB58 1 in
   let p := RDidKey 4608 2 2 in let p' := RDidKey 4608 2 3 in
   let ops := [RUpdate 1 [(AAdd, ed); (AAdd, p)] (Some 1%nat) true; RUpdate 2 [(AAdd, x); (AAdd, p'); (AOther, ed)] None false;
               RUpdate 3 [(AAdd, b)] None true;
-              RForward ed 7 true false; RForward x 8 false false; RForward b 9 true false; RForward p 1 true false;
-              RForward p' 2 true false; RForward (RStr 1) 3 true false; RForward ed 4 true true] in
-  snd (rrun [] ops) = [OResp 1 [(ed, AAdd, RSuccess); (p, AAdd, RServerError)] true;
-                       OResp 2 [(x, AAdd, RSuccess); (p', AAdd, RSuccess)] false; OResp 3 [(b, AAdd, RSuccess)] true;
-                       ORelay 1 7; OHeld 2 8; ORelay 3 9; ODrop; ORelay 2 2; ODrop; ODrop] /\
-  registrant (firstn 3 ops) x = Some 2 /\ registrant (firstn 3 ops) p = None.
+              RForward ed 7 true false false; RForward x 8 false false false; RForward b 9 true false false;
+              RForward p 1 true false false; RForward p' 2 false false false; RForward (RStr 1) 3 true false false;
+              RForward ed 4 true true false; RForward ed 5 false false true; RRestart;
+              RPickup 1 10; RPickup 3 10; RPickup 2 1; RForward x 6 false false false; RPickup 2 10] in
+  let '(s, outs) := rrun ms0 ops in
+  outs = [OResp 1 [(ed, AAdd, RSuccess); (p, AAdd, RServerError)] true;
+          OResp 2 [(x, AAdd, RSuccess); (p', AAdd, RSuccess)] false; OResp 3 [(b, AAdd, RSuccess)] true;
+          ORelay 1 7; OHeld 2 8; ORelay 3 9; ODrop; OHeld 2 2; ODrop; ODrop; ODrop; ORestarted;
+          ONoInbox 1; ONoInbox 3; OBatch 2 [8]; OHeld 2 6; OBatch 2 [2; 6]] /\
+  registrant (firstn 3 ops) x = Some 2 /\ registrant (firstn 3 ops) p = None /\ inbox s 2 = [].
 Proof. vm_compute. repeat split. Qed.
